@@ -8,7 +8,8 @@
 
    check_case codes: 0 ok; 2 a reader lists/loads the index before it lists the snapshots (or loads a
    snapshot it did not list before the index); 3 a writer saved a pack after its last index or the
-   snapshot before the last index / pack; 4 a reader failed although every writer was disciplined
+   snapshot before the last index / pack, or (decoded uploads) an index entry naming a pack not saved
+   before / a snapshot needing a blob that no index saved before lists in an existing pack; 4 a reader failed although every writer was disciplined
    (a backup ran between the reader's two listings, or the reader ran between two uploads of a backup). *)
 From Restic Require Import Base.Prelude.
 
@@ -111,18 +112,21 @@ Fixpoint writer_orderb (dirty : bool) (snapped : bool) (tr : list wop) : bool :=
 
 Inductive case :=
 | CReader (tr : list rop) (failed : bool)
-| CWriter (tr : list wop) (reader_failures : nat).
+| CWriter (tr : list wop) (reader_failures : nat)
+| CWriterSem (v0 : view) (tr : list op).   (* decoded uploads of one backup: packs, index contents, snapshot needs *)
 
 Definition check_C14 (c : case) : bool :=
   match c with
   | CReader tr failed => andb (reader_orderb false false tr) (negb failed)
   | CWriter tr n => andb (writer_orderb false false tr) (Nat.eqb n 0)
+  | CWriterSem v0 tr => wfb v0 tr
   end.
 
 Definition check_case (c : case) : nat :=
   match c with
   | CReader tr failed => if negb (reader_orderb false false tr) then 2 else if failed then 4 else 0
   | CWriter tr n => if negb (writer_orderb false false tr) then 3 else if Nat.eqb n 0 then 0 else 4
+  | CWriterSem v0 tr => if wfb v0 tr then 0 else 3
   end.
 
 End C14m.
